@@ -64,7 +64,11 @@ func (d *DateTime) UnmarshalJSON(bytes []byte) error {
 	if err != nil {
 		datetime, err = time.ParseInLocation("2006-01-02 15:04:05 MST", s, time.Local)
 		if err != nil {
-			return err
+			// ... zones without an abbreviation are formatted as a numeric offset with minutes, e.g. +0330
+			datetime, err = time.ParseInLocation("2006-01-02 15:04:05 -0700", s, time.Local)
+			if err != nil {
+				return err
+			}
 		}
 	}
 
